@@ -108,3 +108,28 @@ package generator
 //@   loop 1 invariant p != nil && fresh(p) && len(p.jobs) == $i
 //@   loop 1 invariant forall k int :: 0 <= k && k < $i ==> res.Contents[k].Name != nil && *res.Contents[k].Name != "" && p.jobs[k].Content == res.Contents[k].Content
 //@   site call:p.OnFinished assert len(p.jobs) == len(res.Contents) && forall k int :: 0 <= k && k < len(res.Contents) ==> p.jobs[k].Content == res.Contents[k].Content
+
+// ---- Generate (properties C11, C04): parameters handed to backend and plugins, failures become error responses ----
+
+//@ func (g *Generator) GetBackend(name string) backend.Backend
+//@   requires g != nil
+//@   loop 1 invariant true
+
+//@ func (g *Generator) preparePlugins(be backend.Backend, pds []*plugin.Desc) error
+//@   requires g != nil && be != nil && forall i int :: 0 <= i && i < len(pds) ==> pds[i] != nil
+//@   ensures result == nil ==> len(g.plugins) == old(len(g.plugins)) + len(pds) && forall k int :: 0 <= k && k < len(g.plugins) ==> g.plugins[k] != nil || k < old(len(g.plugins))
+//@   modifies g.plugins
+//@   loop 1 invariant len(g.plugins) == old(len(g.plugins)) + $i && forall k int :: old(len(g.plugins)) <= k && k < len(g.plugins) ==> g.plugins[k] != nil
+
+//@ func (g *Generator) Generate(args *Arguments) (res *plugin.Response)
+//@   requires g != nil && args != nil && args.Out != nil && args.Req != nil
+//@   requires forall i int :: 0 <= i && i < len(args.Out.UsedPlugins) ==> args.Out.UsedPlugins[i] != nil
+//@   requires forall i int :: 0 <= i && i < len(args.Out.SDKPlugins) ==> args.Out.SDKPlugins[i] != nil
+//@   propagates
+//@   ensures res != nil
+//@   ensures $failed ==> res.Error != nil
+//@   modifies *
+//@   site call:be.Generate assert req.GeneratorParameters == plugin.Pack(out.Options)
+//@   site call:p.Execute assert req.PluginParameters == plugin.Pack(out.UsedPlugins[i].Options)
+//@   loop 1 invariant wfFM(g.files) && g.files != nil && req != nil && out == args.Out && !$failed
+//@   loop 2 invariant wfFM(g.files) && g.files != nil && req != nil && out == args.Out && !$failed && len(g.plugins) == len(out.UsedPlugins) && forall k int :: 0 <= k && k < len(g.plugins) ==> g.plugins[k] != nil
